@@ -312,6 +312,7 @@ class FieldMappingTransformationBase(DetectionItemTransformation):
         field = detection_item.field
         mapping = self.apply_field_name(field)
         field_match = False
+        values_replaced = fieldref_match
         if mapping is not None and (
             self.processing_item is None or self.processing_item.match_field_name(field)
         ):
@@ -332,6 +333,7 @@ class FieldMappingTransformationBase(DetectionItemTransformation):
                         )
                     new_values.append(value)
                 detection_item.value = new_values
+                values_replaced = True
 
             if isinstance(mapping, str):  # 1:1 mapping, map field name of detection item directly
                 detection_item.field = mapping
@@ -348,8 +350,12 @@ class FieldMappingTransformationBase(DetectionItemTransformation):
                         detection_item.applied_processing_items
                     )
                     # ...and its values as written: the modifiers were applied to those, not to the
-                    # values the copy was initialized with
-                    replacement.original_value = detection_item.original_value
+                    # values the copy was initialized with. If the values themselves were replaced
+                    # above, the values as written don't describe the item anymore.
+                    if values_replaced:
+                        replacement.disable_conversion_to_plain()
+                    else:
+                        replacement.original_value = detection_item.original_value
                 result = SigmaDetection(replacements, item_linking=ConditionOR)
         if field_match or fieldref_match:  # field name was changed or field reference was mapped
             if self._pipeline is not None and mapping is not None:
